@@ -60,6 +60,50 @@ def interesting_bytes(rng):
     return [rng.getrandbits(8) for _ in range(rng.randrange(0, 24))]
 
 
+def parse_varint(bs, i, maxbits):
+    v, shift = 0, 0
+    while True:
+        if i >= len(bs):
+            return None
+        b = bs[i]
+        i += 1
+        v |= (b & 0x7f) << shift
+        shift += 7
+        if not b & 0x80:
+            break
+        if shift > 70:
+            return None
+    if v >= 2 ** maxbits:
+        return None
+    return v, i
+
+
+def unit_trigger_targets(bs):
+    """number of targets of a well-formed payload-less client trigger message, None when it is malformed: target count,
+    then that many entities (flagged index, generation-1 when flagged); written from the wire format, not from the code"""
+    r = parse_varint(bs, 0, 64)
+    if r is None:
+        return None
+    n, i = r
+    if n > len(bs):
+        return None
+    for _ in range(n):
+        r = parse_varint(bs, i, 64)
+        if r is None:
+            return None
+        flagged, i = r
+        if flagged >> 1 >= 2 ** 32:
+            return None
+        if flagged & 1:
+            r = parse_varint(bs, i, 32)
+            if r is None:
+                return None
+            g, i = r
+            if g + 1 >= 2 ** 31 or g + 1 == 0:
+                return None
+    return n
+
+
 def build_scenario(rng, payloads, attacker_authorized, proto=False):
     """payloads: list of (channel, bytes) to inject, spread over the scenario."""
     lines, meta = gen_scripts.gen_script(rng, nclients=2, auth="proto" if proto else "custom", late_join=False, length=40, events=True, sessions=False)
@@ -143,7 +187,11 @@ def run(tier, seed, replay):
         return rep.finish()
     nscen = 8 if tier == "quick" else 60
     # payload plan: every 1-byte string on every channel (exhaustive), structure-aware + random beyond
-    payloads = [(ch, [b]) for ch in range(5) for b in range(256)] + [(ch, []) for ch in range(5)]
+    payloads = [(ch, [b]) for ch in range(6) for b in range(256)] + [(ch, []) for ch in range(6)]
+    # payload-less trigger: announced target counts larger than what follows, with valid one-byte entities behind
+    for n in (1, 2, 3, 5, 200):
+        for k in range(0, 4):
+            payloads.append((5, varint(n) + [rng.choice([2, 4, 6, 8, 24, 40]) for _ in range(k)]))
     if tier == "thorough":
         payloads += [(ch, [a, b]) for ch in (0, 3) for a in range(256) for b in range(0, 256, 5)]
     n_struct = 1500 if tier == "quick" else 20000
@@ -190,6 +238,8 @@ def run(tier, seed, replay):
         """0 ack, 1 CE0, 2 CEM, 3 CT, -1 protocol hash"""
         if proto_at.get(i):
             ch = 0 if ch == 0 else (-1 if ch == 1 else ch - 1)
+        if ch == 5:
+            return -3                         # 5: the client trigger without payload (verdict by the python trigger parser below)
         return -2 if ch == 4 else ch          # 4: the event with a sequence payload (no byte-level Coq model: watched for panics and allocations only)
     dec_lines = []
     for i, f in inj:
@@ -222,6 +272,7 @@ def run(tier, seed, replay):
     vi = 0
     pending = []
     attacker_on, server_on = False, False
+    ctu_pending = []
     for i, l in enumerate(all_lines):
         t_ = l.split()
         if t_[0] == "cfg":
@@ -239,6 +290,8 @@ def run(tier, seed, replay):
             # the harness hands the bytes to the server only while the attacker's connection exists
             if attacker_on:
                 pending.append((logical_channel(i, int(f[2])), verdicts[vi] if vi < len(verdicts) else "?"))
+                if logical_channel(i, int(f[2])) == -3:
+                    ctu_pending.append(unhex_list(f[3]))
             vi += 1
         elif l.startswith("sframe"):
             blk = impl_blocks[i] if i < len(impl_blocks) else []
@@ -256,6 +309,8 @@ def run(tier, seed, replay):
                     continue
                 if ch == -2:
                     kinds["vec"] = kinds.get("vec", 0) + 1
+                    continue
+                if ch == -3:
                     continue
                 if v.startswith("PANIC"):
                     oracle_fail.append(dict(problem=dict(step_index=i, step=l, why="the byte-level model says this message panics the decoder"), script=[]))
@@ -299,6 +354,17 @@ def run(tier, seed, replay):
                                                    script=[x for x in all_lines[max(0, i - 80):i + 1]],
                                                    context=dict(block=blk, scenario=[x for x in all_lines[:i] if x.startswith("cfg")][-1],
                                                                 recent_steps=[x for x in all_lines[max(0, i - 400):i] if not x.startswith(("inject", "deliver"))][-30:])))
+            ctu_expected = 0
+            for f2 in ctu_pending:
+                n2 = unit_trigger_targets(f2)
+                if n2 is not None:
+                    ctu_expected += max(1, n2)
+            ctu_got = len([g for g in got if g.startswith("CTU:")])
+            if blk and not any(x.startswith("PANIC") for x in blk) and ctu_got != ctu_expected:
+                lost_valid.append(dict(problem=dict(step_index=i, step=l, why="payload-less client triggers injected in this frame: server logic observed %d trigger invocations, "
+                                                    "the well-formed messages among them announce %d (a malformed message must be discarded as a whole)" % (ctu_got, ctu_expected)),
+                                       script=[x for x in all_lines[max(0, i - 80):i + 1]]))
+            ctu_pending = []
             pending = []
             if len(got) >= 3:
                 nontriv.add(i)
